@@ -338,15 +338,14 @@ def replay_of(kind, **kw):
 def restore_fault_cases(out, tier, rng=None, harness=None):
     """For generated trees: delete each single CAS blob in turn (quick: a sample) and a few random sets of
     blobs, restore through the real DirectoryOutputHandler.Load under a hang detector.  Oracle: the call
-    returns (`error`, or `ok` with the exact listing); never `hang`/`panic`.  Adds violations / known findings
-    (ids of property C04) to `out`; returns counts."""
+    returns (`error`, or `ok` with the exact listing); never `hang`/`panic`.  Adds violations (of the property
+    whose check calls it: C04 or C06) to `out`; returns counts."""
     r = rng or vlib.Rng(vlib.seed() ^ 0xC04)
     h = harness or get_harness(out)
-    stats = {"available": h is not None, "cases": 0, "ok": 0, "error": 0, "hang": 0, "panic": 0, "hang_known": 0,
+    stats = {"available": h is not None, "cases": 0, "ok": 0, "error": 0, "hang": 0, "panic": 0,
              "single_faults": 0, "multi_faults": 0, "trees": 0, "model_mismatches": 0}
     if h is None:
         return stats
-    findings = {f["class"]: f for f in vlib.known_findings("C04")}
     ntrees = 60 if tier == "quick" else 600
     per_tree = 4 if tier == "quick" else 10 ** 6
     shapes = [[("f", b"a", b"x", 0o644)],                                               # flat, one file
@@ -385,17 +384,10 @@ def restore_fault_cases(out, tier, rng=None, harness=None):
         if cls in stats:
             stats[cls] += 1
         if cls == "hang":
+            # C04_restore_terminates holds without a guard (the download goroutines never block on errChan): no class is excused
             g = guards(mo)
-            over = g["failed"] != "-" and int(g["failed"]) > int(g["cap"])
-            if over and mo[1] == "hang" and "errchan-overflow-hang" in findings:
-                stats["hang_known"] += 1
-                out.known(findings["errchan-overflow-hang"]["id"],
-                          "class=errchan-overflow-hang restore of a directory output never returns: %s failing download(s), "
-                          "errChan capacity %s (distinct sub-directories); e.g. tree %s with blob(s) %s deleted [%s]" % (
-                              g["failed"], g["cap"], tree_field(t, True)[:120], rp["missing"][:3], unhx(f[5]).decode("latin-1")[:60]))
-            else:
-                out.violation("directory restore hangs (%s) with %s failing downloads, channel capacity %s" % (
-                    unhx(f[5]).decode("latin-1")[:80], g["failed"], g["cap"]), rp)
+            out.violation("directory restore hangs (%s) with %s failing download(s), errChan capacity %s; e.g. tree %s with blob(s) %s deleted" % (
+                unhx(f[5]).decode("latin-1")[:80], g["failed"], g["cap"], tree_field(t, True)[:120], rp["missing"][:3]), rp)
         elif cls == "panic" or f[0] in ("crash", "harness-error"):
             out.violation("directory restore crashed: %s" % unhx(f[-1]).decode("latin-1")[:200], rp)
         elif cls == "ok":
@@ -545,8 +537,8 @@ def file_roundtrips(out, tier, r, h):
     mlines = ["file\t%s\t%d\t%s\t0" % (hx(sha16(c)), 1 if md & 0o111 else 0, dest_field(d, True)) for c, md, k, d in cases]
     impl = run_harness(h, lines)
     model = run_model(mlines)
-    st = {"cases": len(cases), "exact": 0, "exec_bit_wrong": 0, "parent_missing_error": 0, "directory_at_path_error": 0,
-          "model_mismatches": 0, "exec_flag_ever_recorded": 0}
+    st = {"cases": len(cases), "exact": 0, "parent_missing_error": 0, "directory_at_path_error": 0,
+          "model_mismatches": 0, "exec_flag_recorded": 0, "exec_bit_restored_over_other_bit": 0}
     nontriv = set()
     for i, (c, md, k, d) in enumerate(cases):
         f = impl[i].split("\t")
@@ -555,26 +547,24 @@ def file_roundtrips(out, tier, r, h):
         x = 1 if md & 0o111 else 0
         rp = replay_of("file", line=lines[i], model_line=mlines[i], state=k, impl=impl[i][:500], model="\t".join(mo))
         nontriv.add(mlines[i])
-        st["exec_flag_ever_recorded"] += "exec_recorded=1" in impl[i]
+        recorded = 1 if "exec_recorded=1" in impl[i] else 0 if "exec_recorded=0" in impl[i] else None
+        st["exec_flag_recorded"] += recorded == 1
         cls = f[1] if f[0] == "ok" else f[0]
         before, after = parse_listing(f[2]), parse_listing(f[3]) if len(f) > 3 else None
         mcls = mo[0]
         ml = parse_listing(mo[1], model=True) if mcls == "ok" else None
-        if cls != mcls or (cls == "ok" and ml != drop_size(after)):
+        if cls != mcls or (cls == "ok" and ml != drop_size(after)) or (recorded is not None and recorded != int(g["exec_recorded"])):
             st["model_mismatches"] += 1
             if not any(not v["no_input"] for v in out.violations):
                 out.violation("correspondence Tree.file_load ~ FileOutputHandler.Load broke: impl %s %s, model %s %s" % (
                     cls, show(after), mcls, show(ml)), dict(rp, correspondence="Tree.file_write/file_load vs FileOutputHandler"), no_input=True)
         if cls == "ok" and after == before:
             st["exact"] += 1
+            st["exec_bit_restored_over_other_bit"] += d[0] == "F" and int(g["prior_exec"]) != x
             continue
-        # the oracle failed on the implementation: evaluate the guards of C06_file_roundtrip_partial on this input
-        if cls == "ok" and drop_size(after) == {(b"", "f", 1 - x, sha16(c))} and int(g["keeps_exec"]) != x and "file-exec-bit-lost" in findings:
-            st["exec_bit_wrong"] += 1
-            out.known(findings["file-exec-bit-lost"]["id"],
-                      "class=file-exec-bit-lost a file output cached with mode %o is restored over prior state '%s' with exec bit %d "
-                      "(the mode is never recorded; the restore keeps whatever the path had, 0644 if nothing)" % (md, k, 1 - x))
-        elif cls == "error" and d[0] == "P" and g["possible"] == "0" and "file-parent-missing" in findings:
+        # the oracle failed on the implementation: evaluate the guard of C06_file_roundtrip_partial (file_restore_possible) on this
+        # input.  The exec bit is part of the oracle without a guard (C06-F1 repaired: a wrong bit is a violation).
+        if cls == "error" and d[0] == "P" and g["possible"] == "0" and "file-parent-missing" in findings:
             st["parent_missing_error"] += 1
             out.known(findings["file-parent-missing"]["id"],
                       "class=file-parent-missing restoring a file output whose parent directory is absent fails (%s); the target is re-executed" %
@@ -663,6 +653,8 @@ def cli_run(tier, r):
     jobs.append(("file", n, "absent", None, None))
     jobs.append(("file", n + 1, "noparent", None, None))
     jobs.append(("hang", n + 2, "absent", [("f", b"a", b"only file", 0o644)], None))
+    jobs.append(("file", n + 3, "same-content-noexec", None, None))     # the bytes are in place, only the exec bit is gone
+    jobs.append(("file", n + 4, "modified-noexec", None, None))
 
     def one(job):
         kind, i, state, tree, dest = job
@@ -694,6 +686,10 @@ def cli_run(tier, r):
         if kind == "file":
             if state == "absent":
                 os.unlink(target)
+            elif state == "same-content-noexec":
+                os.chmod(target, 0o644)
+            elif state == "modified-noexec":
+                os.unlink(target); open(target, "w").write("stale\n"); os.chmod(target, 0o644)
             else:
                 shutil.rmtree(os.path.join(ws, "gen"))
         elif kind == "hang":
@@ -731,7 +727,6 @@ def cli_judge(out, jobs, results):
         out.notes.append("cli_tie: unavailable (%s)" % results)
         return {"available": False}
     f6 = {f["class"]: f for f in vlib.known_findings("C06")}
-    f4 = {f["class"]: f for f in vlib.known_findings("C04")}
     summary = {"available": True, "workspaces": len(jobs), "dir_exact_cache_hits": 0, "disagreements": 0, "hang_reproduced": False}
     for job, res in zip(jobs, results):
         kind, i, state, tree, dest = job
@@ -748,28 +743,27 @@ def cli_judge(out, jobs, results):
                 out.violation("grog build: directory output not restored exactly on a cache hit from prior state '%s' (exit %s, command ran %s time(s))" % (
                     state, res["rc2"], res["runs"]), rp)
         elif kind == "hang":
-            if res["rc2"] == 124 and res.get("deleted_blob"):
+            summary["missing_blob_deleted"] = bool(res.get("deleted_blob"))
+            if res["rc2"] == 124:
                 summary["hang_reproduced"] = True
-                if "errchan-overflow-hang" in f4:
-                    out.known(f4["errchan-overflow-hang"]["id"], "class=errchan-overflow-hang `grog build` does not exit (killed by timeout after 8 s) when the "
-                              "only file blob of a flat cached directory output is missing from the cache")
-                else:
-                    out.violation("grog build hangs when a blob of a flat directory output is missing from the cache", rp)
+                out.violation("grog build does not exit (killed by timeout after 8 s) when the only file blob of a flat cached directory "
+                              "output is missing from the cache", rp)
             elif res["rc2"] != 0 or res["after"] != res["before"]:
                 out.violation("grog build with a missing cache blob: exit %s, output differs" % res["rc2"], rp)
+            else:
+                summary["missing_blob_fallback_runs"] = res["runs"]     # 2: the restore failed with an error, the target was executed
         else:
             exact = res["rc2"] == 0 and res["runs"] == 1 and res["after"] == res["before"]
             lost = res["rc2"] == 0 and res["runs"] == 1 and {(e[0], e[1], e[3], e[4]) for e in res["after"]} == \
                 {(e[0], e[1], e[3], e[4]) for e in res["before"]} and res["after"] != res["before"]
             rerun = res["rc2"] == 0 and res["runs"] == 2
             summary["file_" + state] = "exact" if exact else "exec-bit-lost" if lost else "re-executed" if rerun else "other"
-            if lost and "file-exec-bit-lost" in f6:
-                out.known(f6["file-exec-bit-lost"]["id"], "class=file-exec-bit-lost grog build restores a deleted 0755 file output as 0644 on a cache hit")
-            elif rerun and state == "noparent" and "file-parent-missing" in f6:
+            if rerun and state == "noparent" and "file-parent-missing" in f6:
                 out.known(f6["file-parent-missing"]["id"], "class=file-parent-missing grog build re-executes a cached target because the file output's "
                           "parent directory is gone: %s" % res.get("log2", "")[-120:].replace("\n", " "))
             elif not exact:
-                out.violation("grog build: file output not restored exactly on a cache hit from prior state '%s'" % state, rp)
+                out.violation("grog build: file output not restored exactly on a cache hit from prior state '%s'%s" % (
+                    state, " (content restored, executable bit lost: a 0755 output comes back 0644)" if lost else ""), rp)
     return summary
 
 
